@@ -59,8 +59,11 @@ NRR = "semantiva/registry/name_resolver_registry.py"
 PRR = "semantiva/registry/parameter_resolver_registry.py"
 PLUG = "semantiva/registry/plugin_registry.py"
 PROC = "semantiva/registry/processor_registry.py"
+# the component metaclass is a private class: it is found by role (`_component_metaclass`) and its `__init__` appears in the
+# entry-point sets below under this marker, whatever the class is called
+META_INIT_ROLE = "<component metaclass>.__init__"
 GLOBAL_ROLES: List[Tuple[str, frozenset, str, str]] = [
-    ("map", frozenset({(COMP, "_SemantivaComponentMeta.__init__")}), "_COMPONENT_REGISTRY", "category -> weak set of classes (D1)"),
+    ("map", frozenset({(COMP, META_INIT_ROLE)}), "_COMPONENT_REGISTRY", "category -> weak set of classes (D1)"),
     ("map", frozenset({(ECR, "ExecutionComponentRegistry.register_executor")}), "_executors", "keyed by registered name"),
     ("map", frozenset({(ECR, "ExecutionComponentRegistry.register_orchestrator")}), "_orchestrators", "keyed by registered name"),
     ("map", frozenset({(ECR, "ExecutionComponentRegistry.register_transport")}), "_transports", "keyed by registered name"),
@@ -572,6 +575,39 @@ def _local_names(fn: ast.AST) -> Set[str]:
     return out
 
 
+def _component_metaclass(repo: Repo) -> str:
+    """Qualified name of the component metaclass in COMP, found by role: the one class of the module that is a metaclass
+    (a base - followed through the package - is `type` / `ABCMeta`), defines `__init__`, and is named as `metaclass=` by a
+    class of the package."""
+    mod = repo.module(COMP)
+
+    def is_meta(m, c: ast.ClassDef, depth: int = 0) -> bool:
+        for b in c.bases:
+            if (dotted_name(b) or "").split(".")[-1] in ("type", "ABCMeta", "EnumMeta"):
+                return True
+        if depth < 4:
+            for bm, bc in repo.class_bases(m, c):
+                if is_meta(bm, bc, depth + 1):
+                    return True
+        return False
+
+    used: Set[int] = set()
+    for m2, _qn, c2 in repo.all_classes():
+        for k in c2.keywords:
+            if k.arg == "metaclass":
+                try:
+                    hit = repo.resolve_name(m2, k.value)
+                except Exception:
+                    hit = None
+                if hit is not None and isinstance(hit[1], ast.ClassDef):
+                    used.add(id(hit[1]))
+    cands = [qn for qn, c in mod.defs.items() if isinstance(c, ast.ClassDef) and id(c) in used and is_meta(mod, c)
+             and any(isinstance(n, FuncNode) and n.name == "__init__" for n in c.body)]
+    if len(cands) != 1:
+        raise AnalysisError(f"{COMP}: component metaclass (a metaclass with __init__ used as `metaclass=` in the package) not found: {cands}")
+    return cands[0]
+
+
 def _registry_insertions(repo: Repo, meta_init: ast.AST) -> Tuple[Optional[ast.AST], str]:
     """Decide, by role, how the metaclass inserts the class being created (its first parameter) into containers:
     every such insertion must go into a self-cleaning weak container (WeakSet / WeakValueDictionary) that is a bucket
@@ -580,7 +616,7 @@ def _registry_insertions(repo: Repo, meta_init: ast.AST) -> Tuple[Optional[ast.A
     class is handed to are followed.  Returns (offending node or None, reason)."""
     pos = [p.arg for p in meta_init.args.posonlyargs + meta_init.args.args]
     if not pos:
-        raise AnalysisError("_SemantivaComponentMeta.__init__ has no parameters")
+        raise AnalysisError("component metaclass __init__ has no parameters")
     seen: Set[Tuple[int, Tuple[str, ...]]] = set()
     total = 0
     todo: List[Tuple[object, ast.AST, Set[str], int]] = [(repo.module(COMP), meta_init, {pos[0]}, 0)]
@@ -597,7 +633,7 @@ def _registry_insertions(repo: Repo, meta_init: ast.AST) -> Tuple[Optional[ast.A
         if depth < 3:
             todo.extend((m, f, t, depth + 1) for m, f, t in callees)
     if total == 0:
-        raise AnalysisError("_SemantivaComponentMeta.__init__: registry insertion not found")
+        raise AnalysisError("component metaclass __init__: registry insertion not found")
     return None, ""
 
 
@@ -1009,6 +1045,56 @@ def _callers_closure(repo: Repo, mrel: str, qn: str, depth: int = 3) -> Set[Tupl
                         nxt.append((m2.rel, qn2))
                         break
         frontier = nxt
+    return out
+
+
+# Template-method hooks: (file, public base class, public method, public parameter of it) -> the name under which findings in
+# the hook are registered (known_findings.json is keyed by function).  The hook itself is a *private* abstract method, so it
+# is found by its ROLE - the abstract method of the base class that the public method calls on `self` handing over that
+# parameter - and a site in an override of it is attributed to `<class>.<registered name>` whatever the hook is called
+# today (renaming a private method is behaviour-preserving and must not turn a recorded finding into a new one).
+HOOK_ROLES: Dict[Tuple[str, str, str, str], str] = {
+    ("semantiva/execution/orchestrator/orchestrator.py", "SemantivaOrchestrator", "execute", "transport"): "_publish",
+}
+
+
+def _hook_role_labels(repo: Repo) -> Dict[int, str]:
+    """id(method) -> `<class>.<registered hook name>` for every definition (base class and subclasses) of the abstract
+    hooks of HOOK_ROLES.  A role that is not found (or is ambiguous) labels nothing: sites are then reported under the
+    name of the function they are in."""
+    out: Dict[int, str] = {}
+    for (rel, base, entry, param), registered in HOOK_ROLES.items():
+        if not repo.has_module(rel):
+            continue
+        bmod = repo.module(rel)
+        try:
+            bcls = repo.cls(rel, base)
+            raw = repo.func(rel, f"{base}.{entry}")
+        except AnalysisError:
+            continue
+        if param not in _param_names(raw):
+            continue
+        abstract = {n.name for n in bcls.body if isinstance(n, FuncNode) and any((dotted_name(d) or "").split(".")[-1] == "abstractmethod" for d in n.decorator_list)}
+        try:
+            efn = nfunc(repo, rel, f"{base}.{entry}", keep=tuple(sorted(abstract)))
+        except Exception:
+            efn = raw
+        self_name = raw.args.args[0].arg if raw.args.args else "self"
+        hooks: Set[str] = set()
+        for c in calls_in(efn):
+            if not (isinstance(c.func, ast.Attribute) and isinstance(c.func.value, ast.Name) and c.func.value.id == self_name and c.func.attr in abstract):
+                continue
+            handed = list(c.args) + [k.value for k in c.keywords]
+            if any(isinstance(a, ast.Name) and a.id == param for a in handed):
+                hooks.add(c.func.attr)
+        if len(hooks) != 1:
+            continue
+        hook = next(iter(hooks))
+        repo.consulted.add(rel)
+        for cm, cc in [(bmod, bcls)] + list(repo.subclasses(bcls)):
+            for n in cc.body:
+                if isinstance(n, FuncNode) and n.name == hook:
+                    out[id(n)] = f"{qualname_of(cc)}.{registered}"
     return out
 
 
@@ -1991,7 +2077,8 @@ def run(repo: Repo, R: Report) -> None:
     r_reg = R.rule("C18-D1-registry-cannot-pin-classes", "the metaclass inserts every new component class into the process-global registry through a weak container (or a configuration-keyed slot), so per-run generated node/adapter/shorthand classes do not accumulate", 2)
     # consts=False: the normaliser substitutes module-level *mutable* literals (`_PENDING: list = []`) when they are only
     # mutated through a local alias (`q = _PENDING; q.append(x)`), which would turn a process-global queue into a local
-    meta_init = nfunc(repo, COMP, "_SemantivaComponentMeta.__init__", consts=False)
+    meta_qn = _component_metaclass(repo) + ".__init__"
+    meta_init = nfunc(repo, COMP, meta_qn, consts=False)
     deferred: Optional[AnalysisError] = None
     try:
         site, why = _registry_insertions(repo, meta_init)
@@ -2000,11 +2087,13 @@ def run(repo: Repo, R: Report) -> None:
         # sees where the classes go; the anchor loss is reported only if nothing else locates a violation
         deferred = exc
     else:
-        R.check(site is None, r_reg, COMP, "_SemantivaComponentMeta.__init__", norm(stmt_of(site)) if site is not None else "every insertion of the new class goes into a weak bucket of _COMPONENT_REGISTRY",
+        R.check(site is None, r_reg, COMP, meta_qn, norm(stmt_of(site)) if site is not None else "every insertion of the new class goes into a weak bucket of _COMPONENT_REGISTRY",
                 why, meta_init.lineno)
     getter = repo.func(COMP, "get_component_registry")
     rets = [n for n in walk_no_nested(getter) if isinstance(n, ast.Return)]
-    ok = bool(rets) and all(not (isinstance(r.value, ast.Name) and r.value.id == "_COMPONENT_REGISTRY") for r in rets)
+    live = {t.id for st in repo.module(COMP).tree.body if isinstance(st, (ast.Assign, ast.AnnAssign)) and _is_container(getattr(st, "value", None))
+            for t in (st.targets if isinstance(st, ast.Assign) else [st.target]) if isinstance(t, ast.Name)}
+    ok = bool(rets) and all(not (isinstance(r.value, ast.Name) and r.value.id in live) for r in rets)
     R.check(ok, r_reg, COMP, "get_component_registry", "returns a snapshot, not the live weak registry", "callers receive the live registry object (can pin or mutate it)", getter.lineno)
 
     # ------------------------------------------------------------------ D2
@@ -2045,7 +2134,7 @@ def run(repo: Repo, R: Report) -> None:
         if not gs:
             continue
         repo.consulted.add(rel)
-        entries = frozenset(e for mrel, qn, _n in gs for e in _public_entries(repo, mrel, qn))
+        entries = frozenset((COMP, META_INIT_ROLE) if e == (COMP, meta_qn) else e for mrel, qn, _n in gs for e in _public_entries(repo, mrel, qn))
         grown.append((key, decl, gs, _container_kind(getattr(decl, "value", None)), entries))
     unclaimed = list(range(len(GLOBAL_ROLES)))
     claimed: Dict[int, int] = {}  # index in grown -> index in GLOBAL_ROLES
@@ -2065,7 +2154,7 @@ def run(repo: Repo, R: Report) -> None:
         for gi, (key, _decl, gs, kind, _entries) in enumerate(grown):
             if gi in claimed:
                 continue
-            under = [_callers_closure(repo, mrel, qn) for mrel, qn, _n in gs]
+            under = [{(COMP, META_INIT_ROLE) if e == (COMP, meta_qn) else e for e in _callers_closure(repo, mrel, qn)} for mrel, qn, _n in gs]
             for ri in unclaimed:
                 rkind, rentries, rname, _why = GLOBAL_ROLES[ri]
                 if rkind == kind and (not by_name or rname == key[2]) and all(u & rentries for u in under) and all(any(e in u for u in under) for e in rentries):
@@ -2246,9 +2335,12 @@ def run(repo: Repo, R: Report) -> None:
     if not transport_publish:
         raise AnalysisError("no transport publish() definition found")
     unconsumed: List[Tuple[object, ast.AST, ast.Call]] = []
+    hook_labels = _hook_role_labels(repo)
     for mod, qn, f in repo.all_functions():
         if mod.rel.startswith(("semantiva/examples/", "semantiva/execution/transport/")):
             continue
+        # a site in (an override of) a private template-method hook is attributed to the hook's role, not to its current name
+        qn = hook_labels.get(id(f), qn)
         for c in calls_in(f):
             if call_attr(c) == "publish" and isinstance(c.func, ast.Attribute) and not repo.resolve_call(mod, c):
                 ch = c.args[0] if c.args else kwarg(c, "channel")
@@ -2256,7 +2348,8 @@ def run(repo: Repo, R: Report) -> None:
                 consumed = bool(tmpls) and all(any(fnmatch(t, p) for p in patterns) for t in tmpls)
                 repo.consulted.add(mod.rel)
                 shown = c if consumed else _publish_in_normal_form(repo, mod.rel, qn, f, c)
-                R.check(consumed, r_obj, mod.rel, qn, norm(shown)[:90], "messages are published to a channel nothing in the package subscribes to: the in-memory transport retains one Message (data, context) per node per run on a reused Pipeline", c.lineno)
+                defined_as = "" if qualname_of(f) == qn else f" (site attributed to the template-method hook by role; the method is defined as `{qualname_of(f)}`)"
+                R.check(consumed, r_obj, mod.rel, qn, norm(shown)[:90], "messages are published to a channel nothing in the package subscribes to: the in-memory transport retains one Message (data, context) per node per run on a reused Pipeline" + defined_as, c.lineno)
                 if not consumed:
                     unconsumed.append((mod, f, c))
                 if not consumed:
